@@ -504,6 +504,11 @@ func handle(prop, sub string, c any, o Outcome) (fail bool, msg string) {
 func RunProp[C any](t *testing.T, prop, sub string, n int, gen func(*rapid.T) C, check func(C) Outcome) {
 	t.Helper()
 	setChecks(n)
+	defer func() {
+		if t.Failed() {
+			fmt.Printf("VERIF-VIOLATION property=%s sub=%s\n", prop, sub)
+		}
+	}()
 	rapid.Check(t, func(rt *rapid.T) {
 		c := gen(rt)
 		o := safeCheck(check, c)
@@ -511,9 +516,6 @@ func RunProp[C any](t *testing.T, prop, sub string, n int, gen func(*rapid.T) C,
 			rt.Fatalf("%s", msg)
 		}
 	})
-	if t.Failed() {
-		fmt.Printf("VERIF-VIOLATION property=%s sub=%s\n", prop, sub)
-	}
 }
 
 // RunEnum drives a deterministic enumeration (no rapid): next returns false
